@@ -1,10 +1,12 @@
 /-
-  Layer B: a timeout that does not fire has no effect (C08) — a history in which the expiry event of scheduler `s`
-  never occurs is accepted unchanged, and leads to the same state, by the configuration in which `s` has no timeout.
+  Layer B: a timeout that does not fire has no effect (C08) — a history in which the run of scheduler `s` never
+  leaves its main loop on expiry (neither by `timeoutFire s` nor by a reaction that notices the expiry) is accepted
+  unchanged, and leads to the same state, by the configuration in which `s` has no timeout.
 -/
 import AJ.Proofs.CoreB
+import AJ.Proofs.ExitB
 namespace AJ.Proofs.TmoB
-open AJ.Run AJ.Full
+open AJ.Run AJ.Full AJ.Proofs.CoreB
 
 /-- the same configuration, scheduler `s` having no timeout -/
 def noTimeout (c : Cfg) (s : Nat) : Cfg := { c with timeout := fun k => if k = s then none else c.timeout k }
@@ -100,8 +102,18 @@ theorem children_nt (c : Cfg) (s : Nat) (k : Nat) : (noTimeout c s).children k =
 macro "nt_norm" : tactic => `(tactic| simp only [stepB, eraseDl_a, eraseDl_pcB, eraseDl_nbDone, eraseDl_carrived, eraseDl_didSd, eraseDl_bc, eraseDl_hdeadline, eraseDl_hph, eraseDl_hcreq, eraseDl_hcarrived, eraseDl_hcalls, eraseDl_failT, eraseDl_failC, eraseDl_sdValue, eraseDl_tbegin, eraseDl_tsd, noTimeout_n, noTimeout_parent, noTimeout_isSched, noTimeout_req, noTimeout_critical, noTimeout_forever, noTimeout_window, noTimeout_sdTimeout, noTimeout_topPure, cancelPending_nt, hcancelPending_nt, relayActive_nt, doneSet_nt, critIn_nt, nbFinite_nt, children_nt, liveChildren_nt, activeHandlers_nt, quietB_erase, stepA_noTimeout])
 macro "nt_norm_at" h:ident : tactic => `(tactic| simp only [stepB] at $h:ident)
 
+theorem expired_erase_ne (s k : Nat) (st : StB) (now : Nat) (hk : k ≠ s) :
+    expired ((eraseDl s st).deadline k) now = expired (st.deadline k) now := by
+  rw [eraseDl_deadline]; simp [setAt, hk]
+
+theorem expired_erase_self (s : Nat) (st : StB) (now : Nat) :
+    expired ((eraseDl s st).deadline s) now = false := by
+  rw [eraseDl_deadline]; simp [setAt, expired]
+
+/-- a step that does not take the run of `s` out of its loop on expiry is a step of the configuration without the
+    timeout of `s` -/
 theorem step_sim (c : Cfg) (s : Nat) (st st' : StB) (e : EvB) (h : stepB c st e = some st')
-    (hne : e ≠ .timeoutFire s) : stepB (noTimeout c s) (eraseDl s st) e = some (eraseDl s st') := by
+    (hne : st'.pcB s ≠ .tidy .timeout) : stepB (noTimeout c s) (eraseDl s st) e = some (eraseDl s st') := by
   cases e
   case runBegin =>
     nt_norm; nt_norm_at h
@@ -165,11 +177,39 @@ theorem step_sim (c : Cfg) (s : Nat) (st st' : StB) (e : EvB) (h : stepB c st e 
             · cases h; exact congrArg some (exitLoop_nt c s { st with nbDone := setAt st.nbDone k _ } k .success _)
           · rename_i hc; refine (if_neg hc).trans ?_
             split at h
-            · cases h
-            · cases h; rfl
+            · -- the expiry is noticed: not by `s` (hypothesis), and the other deadlines are the same
+              rename_i hx
+              have hks : k ≠ s := by
+                intro hk
+                subst hk
+                split at h
+                · cases h
+                · cases h; exact hne (by simp [exitLoop, setAt])
+              rw [expired_erase_ne s k st _ hks]
+              refine (if_pos hx).trans ?_
+              split at h
+              · cases h
+              · cases h; exact congrArg some (exitLoop_nt c s { st with nbDone := setAt st.nbDone k _ } k .timeout _)
+            · rename_i hx
+              have hx' : ¬ expired ((eraseDl s st).deadline k) st.a.now = true := by
+                by_cases hk : k = s
+                · subst hk; rw [expired_erase_self]; simp
+                · rw [expired_erase_ne s k st _ hk]; exact hx
+              refine (if_neg hx').trans ?_
+              split at h
+              · cases h
+              · cases h; rfl
     · cases h
   case timeoutFire k =>
-    have hks : k ≠ s := fun hk => hne (by rw [hk])
+    have hks : k ≠ s := by
+      intro hk
+      subst hk
+      nt_norm_at h
+      split at h
+      · split at h
+        · cases h
+        · cases h; exact hne (by simp [exitLoop, setAt])
+      · cases h
     nt_norm; nt_norm_at h
     rw [eraseDl_deadline, show setAt st.deadline s none k = st.deadline k from by simp [setAt, hks]]
     split at h
@@ -294,7 +334,7 @@ theorem eraseDl_idem (s : Nat) (st : StB) : eraseDl s (eraseDl s st) = eraseDl s
   split <;> rfl
 
 theorem accept_sim (c : Cfg) (s : Nat) : ∀ (evs : List EvB) (st st' : StB),
-    acceptB c st evs = some st' → EvB.timeoutFire s ∉ evs →
+    acceptB c st evs = some st' → ¬ timesOutFrom c s st evs →
     acceptB (noTimeout c s) (eraseDl s st) evs = some (eraseDl s st')
   | [], st, st', h, _ => by
     simp only [acceptB] at h ⊢
@@ -303,19 +343,33 @@ theorem accept_sim (c : Cfg) (s : Nat) : ∀ (evs : List EvB) (st st' : StB),
     simp only [acceptB] at h ⊢
     split at h
     · rename_i st1 h1
-      have hne : e ≠ .timeoutFire s := fun he => hno (by rw [he]; exact List.mem_cons_self)
+      rw [timesOutFrom_cons c s st st1 e es h1] at hno
+      have hne : st1.pcB s ≠ .tidy .timeout := fun hx => hno (Or.inr ⟨[], st1, List.nil_prefix, rfl, hx⟩)
       rw [step_sim c s st st1 e h1 hne]
-      exact accept_sim c s es st1 st' h (fun hm => hno (List.mem_cons_of_mem _ hm))
+      exact accept_sim c s es st1 st' h (fun hm => hno (Or.inr hm))
     · cases h
 
-/-- C08: if the timeout of `s` never fires in a history, the run is exactly the run without that timeout: the same
-    events are accepted — in particular time passes in the same way — and the states agree (up to the armed deadline) -/
+/-- C08: if the run of `s` never leaves its main loop on expiry in a history (`timesOut`: no prefix of the history
+    leads to a state where `co_run` of `s` is in the clean-up of `_abort_on_timeout`), the run is exactly the run
+    without that timeout: the same events are accepted — in particular time passes in the same way — and the states
+    agree (up to the armed deadline).  (As first stated the hypothesis was `EvB.timeoutFire s ∉ evs`: no longer
+    enough, since a reaction of `s` that notices the expiry leaves the loop as well.) -/
 theorem timeout_silent (c : Cfg) (s : Nat) (evs : List EvB) (st : StB)
-    (h : acceptB c StB.init evs = some st) (hno : EvB.timeoutFire s ∉ evs) :
+    (h : acceptB c StB.init evs = some st) (hno : ¬ timesOut c s evs) :
     ∃ st', acceptB (noTimeout c s) StB.init evs = some st' ∧ eraseDl s st' = eraseDl s st := by
   refine ⟨eraseDl s st, ?_, eraseDl_idem s st⟩
   have := accept_sim c s evs StB.init st h hno
   rwa [eraseDl_init] at this
+
+/-- C08: the same, read off the diagnosis: a run of `s` that does not report `failed_time_out()` in the end is
+    exactly the run without the timeout of `s` (`ExitB.failT_iff_timesOut`) -/
+theorem timeout_silent_diag (c : Cfg) (hwf : c.wf = true) (s : Nat) (evs : List EvB) (st : StB)
+    (h : acceptB c StB.init evs = some st) (hf : st.failT s = false) :
+    ∃ st', acceptB (noTimeout c s) StB.init evs = some st' ∧ eraseDl s st' = eraseDl s st := by
+  apply timeout_silent c s evs st h
+  intro ht
+  have := (ExitB.failT_iff_timesOut c hwf evs st h s).2 ht
+  simp [hf] at this
 
 /-- C08: the expiry event is the only one that reads the deadline of `s` to make a decision: it is accepted only once
     `begin + T` has been reached -/
@@ -331,5 +385,29 @@ theorem timeoutFire_needs_expiry (c : Cfg) (st st' : StB) (s : Nat) (h : stepB c
       rw [hd] at hx
       exact ⟨dl, rfl, by simpa [expired] using hx⟩
   · cases h
+
+/-- C08: … and so does the reaction that notices the expiry: a `react s` step that takes the timeout exit happens
+    at an instant where `begin + T` has been reached (the expiry test is the only other place where the deadline of
+    `s` is read) -/
+theorem react_timeout_needs_expiry (c : Cfg) (st st' : StB) (s : Nat) (h : stepB c st (.react s) = some st')
+    (hx : st'.pcB s = .tidy .timeout) :
+    ∃ dl, st.deadline s = some dl ∧ dl ≤ st.a.now := by
+  have hexp : expired (st.deadline s) st.a.now = true := by
+    simp only [stepB] at h
+    split at h
+    · split at h
+      · cases h
+      · (repeat' split at h)
+        all_goals first
+          | (cases h; done)
+          | (cases h; simp [exitLoop, setAt] at hx; done)
+          | (cases h; rw [‹st.pcB s = PcB.loop›] at hx; cases hx; done)
+          | assumption
+    · cases h
+  cases hd : st.deadline s with
+  | none => rw [hd] at hexp; simp [expired] at hexp
+  | some dl =>
+    rw [hd] at hexp
+    exact ⟨dl, rfl, by simpa [expired] using hexp⟩
 
 end AJ.Proofs.TmoB
